@@ -17,6 +17,8 @@ CLAIMED["C01"] = ("other", "Structural invariants of the replication pipeline de
   "CFG path rules, origin rendering, who-may-call/write tables, mutex-held rule, frame-type table over go/ssa")
 CLAIMED["C06"] = ("other", "TXIDs and checksums are touched only through comparisons: the divergence handling is a finite decision table extracted by enumerating every feasible path (phis and local struct cells resolved per path) and compared with the confirmed tables on the primary (streamDB, streamLTX), the replica (processLTXStreamFrame, position read under the write lock) and the forwarding side (WriteLTXFileAt), plus chain reset on snapshots. Does NOT decide fork detection probability (checksum collisions) or end-state byte identity.", "DESIGN.md section 4 C06",
   "decision-table extraction by path enumeration with phi/cell resolution, CFG guarded-by / no-path rules, origin rendering over go/ssa")
+CLAIMED["C09"] = ("other", "Chain invariants as structure: header provenance of the four local creators (TXID+1, pre = previous post), temp names and listings that ignore unparsable names, acceptance only of files that extend the exact position and verify, snapshot clears the directory, and the retention delete decision extracted by path enumeration with phi resolution (never the newest file; older than the cut-off; below the high-water mark when a backup client is configured), HWM provenance. Does NOT decide chain validity over arbitrary histories or sweep/stream races.", "DESIGN.md section 4 C09",
+  "origin rendering of headers, path enumeration with phi resolution for the retention formula, who-may-call tables, CFG rules over go/ssa")
 REASONS = {}
 def main():
     checks=[]
